@@ -21,6 +21,7 @@ partial def evalTerm : Sexp → Except String (Option Err)
   | .list (.atom "J" :: xs) => do pure (join (← evalList xs))
   | .list [.atom "X", a, x] => do pure (wrapAnnot (← evalTerm x) (← nat a))
   | .list [.atom "P", x] => do pure (parsePanicErr (← evalTerm x))
+  | .list [.atom "V", x] => evalTerm x   -- the operand was looked at (Unwind, Is, As) before use: no effect
   | s => throw s!"bad-term {repr s}"
 where
   nat (s : Sexp) : Except String Nat :=
